@@ -9,6 +9,10 @@ import (
 )
 
 func (k Keeper) HandleCreateClient(ctx sdk.Context, p *types.CreateClientProposal) (exported.ClientState, error) {
+	// a client under the chain's own name would let RecvPacket's relay branch write commitments/<self>/...
+	if p.ChainName == k.GetChainName(ctx) {
+		return nil, sdkerrors.Wrapf(types.ErrClientExists, "chain-name %s is the name of this chain", p.ChainName)
+	}
 	if _, has := k.GetClientState(ctx, p.ChainName); has {
 		return nil, sdkerrors.Wrapf(types.ErrClientExists, "chain-name: %s", p.ChainName)
 	}
